@@ -54,12 +54,17 @@ def bbox_size(mask):
     return (i[:, 0].max() - i[:, 0].min() + 1) * (i[:, 1].max() - i[:, 1].min() + 1)
 
 
-def amplitude(rng, mask):
-    """Real non-negative amplitude on the support (strictly positive there)."""
+def amplitude(rng, mask, signed=None):
+    """Real amplitude on the support (non-zero there): usually positive, sometimes with sign changes (pi phase steps
+    stored as negative values, as in a sinc / Bessel apodisation)."""
     k = rng.integers(0, 3)
     if k == 0:
         return mask.astype(float)
     a = rng.uniform(0.2, 1.5, size=mask.shape)
+    if signed is None:
+        signed = rng.random() < 0.2
+    if signed:
+        a = a * rng.choice([-1.0, 1.0], size=mask.shape)
     return a * mask
 
 
